@@ -44,6 +44,10 @@ package main
 // pStep carries its kind and the parties' inputs, minimisation and replay work
 // on steps of any kind.
 //
+// A history element may also be CONCURRENT (pconc.go): k = 2..8 steps that run
+// at the same time, each with its own Compiler and Params (pStep.Par); family
+// const-rich (programs rich in int64 constants) joins the sibling groups.
+//
 // Model ops (`phist`): for the wide-const-divmod / wide-const-arith groups the
 // Lean model of a compilation step (Model/ProcState.lean: a function of source,
 // parameters and process state) must produce the folded constants of every
@@ -108,6 +112,9 @@ type pStep struct {
 	// (streaming session, CompileFile, CompileSSA, Compute, Garble/Eval, Marshal/Parse round trip)
 	Kind string   `json:"kind,omitempty"`
 	In   []string `json:"in,omitempty"` // the parties' inputs of the kinds that run the program
+	// Par != 0: consecutive steps with the same Par are ONE concurrent history element: they run AT THE SAME TIME,
+	// each in its own goroutine with its own Compiler and Params, released from a barrier (pconc.go)
+	Par int `json:"par,omitempty"`
 }
 
 type pSpec struct {
@@ -116,6 +123,8 @@ type pSpec struct {
 	Env   []string `json:"env,omitempty"`
 	Progs []*pProg `json:"progs"`
 	Steps []pStep  `json:"steps"`
+	// Race: the child process is the race-detector build of this harness (go build -race); its reports are read back
+	Race bool `json:"race,omitempty"`
 }
 
 type pStepRes struct {
@@ -132,6 +141,8 @@ type pStepRes struct {
 	Status   string   `json:"status,omitempty"` // kinds that run something: ok | what went wrong
 	Vals     string   `json:"vals,omitempty"`   // kinds that run the program: the results
 	GC       []int    `json:"gc,omitempty"`     // ssa-stream: arguments recycled by gc, in order
+	T0       int64    `json:"t0,omitempty"`     // start / end of the step, microseconds since the process started
+	T1       int64    `json:"t1,omitempty"`
 }
 
 // same: equal outputs of two steps of the same (program, kind, inputs)
@@ -157,7 +168,7 @@ func (r *pStepRes) String() string {
 // widened search of checks/C08.py: a new package-level variable in package P
 // focuses the search on the families listed for P)
 var pFamilies = []string{"wide-const-divmod", "wide-const-arith", "wide-const-bits", "runtime-ops", "const-aggregates",
-	"library", "sizes-params"}
+	"library", "sizes-params", "const-rich"}
 
 // ---------------------------------------------------------------- child
 
@@ -186,61 +197,88 @@ func runPChild(args []string) {
 	if err != nil || json.Unmarshal(b, &spec) != nil {
 		os.Exit(2)
 	}
-	type shared struct {
-		c *compiler.Compiler
-		p *utils.Params
-	}
-	long := map[int]*shared{}
-	var out []*pStepRes
+	long := map[int]*pShared{}
+	out := make([]*pStepRes, len(spec.Steps))
 	// a stuck session must not hold the run
 	time.AfterFunc(12*time.Minute, func() { os.Exit(3) })
-	for i, st := range spec.Steps {
-		pp := spec.Progs[st.Prog]
-		j := &Job{Name: pp.Name, Family: pp.Family, Src: pp.Src, Sizes: pp.Sizes, Variant: pp.Variant}
-		if k := stepKind(st); k != kCompile {
-			sr, ssaText := runActivity(k, pp, st.In, args[2], i)
-			sr.Prog = st.Prog
-			if ssaText != "" {
-				if len(ssaText) < 1<<18 {
-					os.WriteFile(filepath.Join(args[2], fmt.Sprintf("%d.ssa", i)), []byte(ssaText), 0o644)
-				}
-				if len(pp.Folds) > 0 || len(ssaText) < 4096 {
-					sr.Consts = listingConsts(ssaText)
-					if len(sr.Consts) > 24 {
-						sr.Consts = sr.Consts[:24]
-					}
-				}
-			}
-			out = append(out, sr)
+	procStart := time.Now()
+	for i := 0; i < len(spec.Steps); {
+		st := spec.Steps[i]
+		if st.Par == 0 {
+			out[i] = runOneStep(&spec, i, long, args[2], procStart)
+			i++
 			continue
 		}
-		var r *Res
-		if st.Fresh {
-			r = compileFresh(j)
-		} else {
-			sh, ok := long[pp.Variant]
-			if !ok {
-				p := newParams(j)
-				sh = &shared{c: compiler.New(p), p: p}
-				long[pp.Variant] = sh
-			}
-			r = compileOn(sh.c, sh.p, j)
+		// one concurrent history element: all steps of the group at the same time
+		j := i
+		for j < len(spec.Steps) && spec.Steps[j].Par == st.Par {
+			j++
 		}
-		if len(r.ssa) < 1<<18 {
-			os.WriteFile(filepath.Join(args[2], fmt.Sprintf("%d.ssa", i)), []byte(r.ssa), 0o644)
-		}
-		sr := &pStepRes{Prog: st.Prog, Err: r.Err, Gates: r.Gates, Wires: r.Wires, CircHash: r.CircHash, CircLen: r.CircLen,
-			SSAHash: r.SSAHash, Ms: r.Ms}
-		if len(pp.Folds) > 0 || len(r.ssa) < 4096 {
-			sr.Consts = listingConsts(r.ssa)
-			if len(sr.Consts) > 24 {
-				sr.Consts = sr.Consts[:24]
-			}
-		}
-		out = append(out, sr)
+		runConcurrent(&spec, i, j, out, args[2], procStart)
+		i = j
 	}
 	ob, _ := json.Marshal(out)
 	os.WriteFile(args[1], ob, 0o644)
+}
+
+type pShared struct {
+	c *compiler.Compiler
+	p *utils.Params
+}
+
+// runOneStep runs step i of the history in the calling goroutine.  `long` = the
+// process's long-lived Compilers (nil inside a concurrent element: a Compiler
+// and its Params belong to one compilation at a time, every concurrent step
+// makes its own).
+func runOneStep(spec *pSpec, i int, long map[int]*pShared, dir string, procStart time.Time) *pStepRes {
+	st := spec.Steps[i]
+	pp := spec.Progs[st.Prog]
+	j := &Job{Name: pp.Name, Family: pp.Family, Src: pp.Src, Sizes: pp.Sizes, Variant: pp.Variant}
+	t0 := time.Since(procStart).Microseconds()
+	stamp := func(sr *pStepRes) *pStepRes {
+		sr.T0, sr.T1 = t0, time.Since(procStart).Microseconds()
+		return sr
+	}
+	if k := stepKind(st); k != kCompile {
+		sr, ssaText := runActivity(k, pp, st.In, dir, i)
+		sr.Prog = st.Prog
+		if ssaText != "" {
+			if len(ssaText) < 1<<18 {
+				os.WriteFile(filepath.Join(dir, fmt.Sprintf("%d.ssa", i)), []byte(ssaText), 0o644)
+			}
+			if len(pp.Folds) > 0 || len(ssaText) < 4096 {
+				sr.Consts = listingConsts(ssaText)
+				if len(sr.Consts) > 24 {
+					sr.Consts = sr.Consts[:24]
+				}
+			}
+		}
+		return stamp(sr)
+	}
+	var r *Res
+	if st.Fresh || long == nil {
+		r = compileFresh(j)
+	} else {
+		sh, ok := long[pp.Variant]
+		if !ok {
+			p := newParams(j)
+			sh = &pShared{c: compiler.New(p), p: p}
+			long[pp.Variant] = sh
+		}
+		r = compileOn(sh.c, sh.p, j)
+	}
+	if len(r.ssa) < 1<<18 {
+		os.WriteFile(filepath.Join(dir, fmt.Sprintf("%d.ssa", i)), []byte(r.ssa), 0o644)
+	}
+	sr := &pStepRes{Prog: st.Prog, Err: r.Err, Gates: r.Gates, Wires: r.Wires, CircHash: r.CircHash, CircLen: r.CircLen,
+		SSAHash: r.SSAHash, Ms: r.Ms}
+	if len(pp.Folds) > 0 || len(r.ssa) < 4096 {
+		sr.Consts = listingConsts(r.ssa)
+		if len(sr.Consts) > 24 {
+			sr.Consts = sr.Consts[:24]
+		}
+	}
+	return stamp(sr)
 }
 
 // ---------------------------------------------------------------- generators
@@ -601,10 +639,10 @@ func genPGroups(seed uint64, tier string, focus map[string]bool, scale int) []*p
 	g := &pGen{r: hxlib.NewRng(seed ^ 0x70737461), heavy: tier != "quick"}
 	want := func(f string) bool { return len(focus) == 0 || focus[f] }
 	per := map[string]int{"wide-const-divmod": 3, "wide-const-arith": 2, "wide-const-bits": 2, "runtime-ops": 2,
-		"const-aggregates": 1, "library": 1, "sizes-params": 1}
+		"const-aggregates": 1, "library": 1, "sizes-params": 1, "const-rich": 1}
 	if g.heavy {
 		per = map[string]int{"wide-const-divmod": 6, "wide-const-arith": 4, "wide-const-bits": 4, "runtime-ops": 5,
-			"const-aggregates": 3, "library": 3, "sizes-params": 3}
+			"const-aggregates": 3, "library": 3, "sizes-params": 3, "const-rich": 3}
 	}
 	for _, fam := range pFamilies {
 		if !want(fam) {
@@ -627,6 +665,8 @@ func genPGroups(seed uint64, tier string, focus map[string]bool, scale int) []*p
 				g.groupLibrary(variant)
 			case "sizes-params":
 				g.groupSizesParams()
+			case "const-rich":
+				g.groupConstRich(variant)
 			}
 		}
 	}
@@ -718,11 +758,12 @@ func buildPSpecs(seed uint64, progs []*pProg) []*pSpec {
 // ---------------------------------------------------------------- running
 
 type pRunner struct {
-	self  string
-	work  string
-	n     int
-	mu    sync.Mutex
-	trial int
+	self    string
+	racebin string // the race-detector build of this harness ("" = not available)
+	work    string
+	n       int
+	mu      sync.Mutex
+	trial   int
 }
 
 // run executes one spec in a fresh child process; returns the step results
@@ -738,8 +779,22 @@ func (pr *pRunner) run(sp *pSpec) ([]*pStepRes, string) {
 	of := filepath.Join(dir, "out.json")
 	b, _ := json.Marshal(sp)
 	os.WriteFile(sf, b, 0o644)
-	cmd := exec.Command(pr.self, "pchild", sf, of, dir)
-	cmd.Env = append(os.Environ(), sp.Env...)
+	bin := pr.self
+	env := append(os.Environ(), sp.Env...)
+	if sp.Race {
+		if pr.racebin == "" {
+			return nil, dir
+		}
+		bin = pr.racebin
+		// reports go to <dir>/race.<pid>; the process goes on after a report and exits as usual
+		env = append(env, "GORACE=log_path="+filepath.Join(dir, "race")+" halt_on_error=0 exitcode=0 history_size=3")
+	}
+	cmd := exec.Command(bin, "pchild", sf, of, dir)
+	cmd.Env = env
+	if ef, err := os.Create(filepath.Join(dir, "stderr.txt")); err == nil {
+		cmd.Stderr = ef
+		defer ef.Close()
+	}
 	cmd.Run()
 	rb, err := os.ReadFile(of)
 	if err != nil {
@@ -780,10 +835,23 @@ func readSSA(dir string, step int) string {
 
 // prefixSpec: the history up to and including step `last`, optionally
 // without the steps in `drop`.
+//
+// A concurrent element is kept whole: when step `last` is inside one, the
+// other steps of the element stay and `last` becomes the final step.
 func prefixSpec(sp *pSpec, last int, drop map[int]bool) *pSpec {
 	ns := &pSpec{Name: sp.Name + " (history)", Kind: sp.Kind, Env: sp.Env}
 	local := map[int]int{}
-	for i := 0; i <= last; i++ {
+	order := make([]int, 0, last+1)
+	for i := 0; i < last; i++ {
+		order = append(order, i)
+	}
+	if par := sp.Steps[last].Par; par != 0 {
+		for i := last + 1; i < len(sp.Steps) && sp.Steps[i].Par == par; i++ {
+			order = append(order, i)
+		}
+	}
+	order = append(order, last)
+	for _, i := range order {
 		if drop[i] {
 			continue
 		}
@@ -807,6 +875,7 @@ func pristineSpec(p *pProg) *pSpec {
 // pristineStepSpec: the step (of any kind) alone in a fresh process
 func pristineStepSpec(p *pProg, st pStep) *pSpec {
 	st.Prog = 0
+	st.Par = 0
 	if stepKind(st) == kCompile {
 		st.Fresh = true
 	}
@@ -818,6 +887,28 @@ func pristineStepSpec(p *pProg, st pStep) *pSpec {
 func (pr *pRunner) minimise(sp *pSpec, want *pStepRes, cmp func(a, b *pStepRes) bool, budget int) (*pSpec, int) {
 	cur := sp
 	trials := 0
+	if n := len(cur.Steps); n > 1 && cur.Steps[n-1].Par != 0 {
+		// the last step is inside a concurrent element: first try the element alone (what it needs is most
+		// often only its peers); the schedule decides, so up to 3 runs
+		drop := map[int]bool{}
+		for i, st := range cur.Steps {
+			if st.Par != cur.Steps[n-1].Par {
+				drop[i] = true
+			}
+		}
+		if len(drop) > 0 {
+			cand := prefixSpec(cur, n-1, drop)
+			cand.Name = sp.Name
+			for try := 0; try < 3 && trials < budget; try++ {
+				rs, _ := pr.run(cand)
+				trials++
+				if rs != nil && differing(cand, rs, want, cmp) != nil {
+					cur = cand
+					break
+				}
+			}
+		}
+	}
 	chunk := (len(cur.Steps) - 1) / 2
 	if chunk < 1 {
 		chunk = 1
@@ -833,7 +924,11 @@ func (pr *pRunner) minimise(sp *pSpec, want *pStepRes, cmp func(a, b *pStepRes) 
 			cand.Name = sp.Name
 			rs, _ := pr.run(cand)
 			trials++
-			if rs != nil && !cmp(rs[len(rs)-1], want) {
+			if rs != nil && differing(cand, rs, want, cmp) == nil && hasConcurrent(cand) {
+				// the schedule decides: a concurrent history gets a second run
+				rs, _ = pr.run(cand)
+			}
+			if rs != nil && differing(cand, rs, want, cmp) != nil {
 				cur = cand
 				removed = true
 			} else {
@@ -854,14 +949,24 @@ func describeHistory(sp *pSpec) []string {
 	for i, st := range sp.Steps {
 		p := sp.Progs[st.Prog]
 		how := "the process's long-lived Compiler"
-		if st.Fresh {
+		if st.Fresh || st.Par != 0 {
 			how = "a fresh Compiler"
 		}
+		conc := ""
+		if st.Par != 0 {
+			n := 0
+			for _, o := range sp.Steps {
+				if o.Par == st.Par {
+					n++
+				}
+			}
+			conc = fmt.Sprintf("[concurrent element %d: %d goroutines started from a barrier] ", st.Par, n)
+		}
 		if k := stepKind(st); k != kCompile {
-			l = append(l, fmt.Sprintf("%d. %s (fresh Compiler) inputs %v: %s [%s]", i+1, k, st.In, p.Name, p.Attr))
+			l = append(l, fmt.Sprintf("%d. %s%s (fresh Compiler) inputs %v: %s [%s]", i+1, conc, k, st.In, p.Name, p.Attr))
 			continue
 		}
-		l = append(l, fmt.Sprintf("%d. Compile on %s: %s [%s]", i+1, how, p.Name, p.Attr))
+		l = append(l, fmt.Sprintf("%d. %sCompile on %s: %s [%s]", i+1, conc, how, p.Name, p.Attr))
 	}
 	return l
 }
@@ -879,7 +984,7 @@ func historySources(sp *pSpec) []map[string]any {
 // whose outputs must be equal under `cmp` (sameCircuit: the compilations inside
 // the steps; same: steps of one kind with the same inputs) and are not.
 func (pr *pRunner) reportPFailure(o *hxlib.Out, seed uint64, tier string, sa *pSpec, ia int, ra *pStepRes, sb *pSpec, ib int, rb *pStepRes,
-	cmp func(a, b *pStepRes) bool, minimiseIt bool) {
+	cmp func(a, b *pStepRes) bool, budget int) {
 	prog := sa.Progs[sa.Steps[ia].Prog]
 	d := map[string]any{
 		"program": prog.Name, "family": prog.Family, "attributes": prog.Attr, "variant": prog.Variant, "sizes": fmt.Sprint(prog.Sizes),
@@ -920,16 +1025,31 @@ func (pr *pRunner) reportPFailure(o *hxlib.Out, seed uint64, tier string, sa *pS
 	}
 	if bad != nil {
 		trials := 0
-		if minimiseIt {
-			bad, trials = pr.minimise(bad, p0, cmp, 40)
+		orig := bad
+		if budget > 0 {
+			bad, trials = pr.minimise(bad, p0, cmp, budget)
 		}
 		// pooled objects are per P and the scheduler decides who finds them: a history may need more than one run
+		// (and a concurrent element's schedule is the runtime's)
+		reruns := 3
+		if hasConcurrent(bad) {
+			reruns = 8
+		}
 		brs, bdir := pr.run(bad)
-		for try := 0; try < 3 && brs != nil && cmp(brs[len(brs)-1], p0); try++ {
+		for try := 0; try < reruns && brs != nil && differing(bad, brs, p0, cmp) == nil; try++ {
 			brs, bdir = pr.run(bad)
 		}
-		if brs != nil && !cmp(brs[len(brs)-1], p0) {
-			last := brs[len(brs)-1]
+		if (brs == nil || differing(bad, brs, p0, cmp) == nil) && bad != orig {
+			// a trial of the minimisation differed by the luck of one schedule: back to the history as it was found
+			bad = orig
+			d["minimisation_note"] = "the minimised history did not reproduce the difference in 9 runs; the history is the one found"
+			brs, bdir = pr.run(bad)
+			for try := 0; try < reruns && brs != nil && differing(bad, brs, p0, cmp) == nil; try++ {
+				brs, bdir = pr.run(bad)
+			}
+		}
+		if brs != nil && differing(bad, brs, p0, cmp) != nil {
+			last := differing(bad, brs, p0, cmp)
 			d["after_the_history"] = last.String()
 			d["alone_in_a_fresh_process"] = p0.String()
 			d["history"] = describeHistory(bad)
@@ -938,7 +1058,13 @@ func (pr *pRunner) reportPFailure(o *hxlib.Out, seed uint64, tier string, sa *pS
 			d["history_env"] = bad.Env
 			d["minimisation_trials"] = trials
 			d["replay_spec"] = map[string]any{"history": bad, "reference": pris}
-			ta, tb := readSSA(pdir, 0), readSSA(bdir, len(brs)-1)
+			ta, tb := readSSA(pdir, 0), readSSA(bdir, indexOfRes(brs, last))
+			if hasConcurrent(bad) {
+				d["concurrent"] = true
+				d["schedule_note"] = "the steps of a concurrent element run at the same time; which of them gets the different output is " +
+					"decided by the Go scheduler: the replay compares every step of the last element that compiles the same program with " +
+					"the reference and re-runs the history up to 8 times"
+			}
 			if ta != tb {
 				d["ssa_diff"] = firstDiff(ta, tb)
 				d["ssa_listing_alone"] = clipS(ta, 12000)
@@ -952,6 +1078,9 @@ func (pr *pRunner) reportPFailure(o *hxlib.Out, seed uint64, tier string, sa *pS
 		// neither side differs reproducibly from the step alone in a fresh
 		// process: the two processes themselves are the replay
 		ha, hb := prefixSpec(sa, ia, nil), prefixSpec(sb, ib, nil)
+		if hasConcurrent(hb) && !hasConcurrent(ha) {
+			ha, hb = hb, ha
+		}
 		d["history"] = describeHistory(ha)
 		d["other_history"] = describeHistory(hb)
 		d["replay_spec"] = map[string]any{"history": ha, "reference": hb}
@@ -963,7 +1092,7 @@ func (pr *pRunner) reportPFailure(o *hxlib.Out, seed uint64, tier string, sa *pS
 
 // ---------------------------------------------------------------- main
 
-func parsePExtra(extra string) (focus map[string]bool, scale int, replay string, heavy bool, acts string) {
+func parsePExtra(extra string) (focus map[string]bool, scale int, replay string, heavy bool, acts string, racebin string, conc string) {
 	focus = map[string]bool{}
 	scale = 1
 	for _, kv := range strings.Split(extra, ";") {
@@ -985,6 +1114,12 @@ func parsePExtra(extra string) (focus map[string]bool, scale int, replay string,
 			// activity histories (pacts.go): "" = one per group + one over all groups; full = every kind with
 			// same-width and other-width actors; off = none
 			acts = v
+		case "racebin":
+			// the race-detector build of this harness (go build -race): one concurrent history runs under it
+			racebin = v
+		case "conc":
+			// concurrent histories (pconc.go): "" = one per group + one over all groups; full = more rounds; off = none
+			conc = v
 		}
 	}
 	if scale < 1 {
@@ -1003,8 +1138,8 @@ func runPState(cf *hxlib.CommonFlags, o *hxlib.Out) {
 	os.MkdirAll(work, 0o755)
 	defer os.RemoveAll(work)
 	self, _ := os.Executable()
-	pr := &pRunner{self: self, work: work}
-	focus, scale, replay, heavy, acts := parsePExtra(cf.Extra)
+	focus, scale, replay, heavy, acts, racebin, conc := parsePExtra(cf.Extra)
+	pr := &pRunner{self: self, work: work, racebin: racebin}
 	if replay != "" {
 		replayPState(pr, o, replay)
 		return
@@ -1019,6 +1154,9 @@ func runPState(cf *hxlib.CommonFlags, o *hxlib.Out) {
 	specs := buildPSpecs(cf.Seed, progs)
 	if acts != "off" {
 		specs = append(specs, buildActivitySpecs(cf.Seed, progs, acts == "full" || cf.Tier != "quick")...)
+	}
+	if conc != "off" {
+		specs = append(specs, buildConcurrentSpecs(cf.Seed, progs, conc == "full" || cf.Tier != "quick", racebin != "")...)
 	}
 	par := cf.N
 	if par <= 0 {
@@ -1045,11 +1183,12 @@ func runPState(cf *hxlib.CommonFlags, o *hxlib.Out) {
 	compiled := map[int]bool{}
 	for si, rs := range results {
 		if rs == nil {
-			o.Fail("c08-pstate-child-failed", map[string]any{"process": specs[si].Name})
+			childFailed(o, specs[si], dirs[si])
 			continue
 		}
 		okProcs++
 		o.Count("pstate_processes_" + specs[si].Kind)
+		countConcurrency(o, specs[si], rs)
 		for i, r := range rs {
 			id := specs[si].Progs[r.Prog].ID
 			st := specs[si].Steps[i]
@@ -1106,6 +1245,9 @@ func runPState(cf *hxlib.CommonFlags, o *hxlib.Out) {
 						o.Count("pstate_comparisons_same_process")
 					} else {
 						o.Count("pstate_comparisons_cross_process")
+					}
+					if st.Par != 0 {
+						o.Count("pstate_comparisons_concurrent_compilation")
 					}
 					if specs[si].Kind == "activities" || specs[si].Kind == "cross-activities" {
 						o.Count("pstate_comparisons_after_activities")
@@ -1171,10 +1313,19 @@ func runPState(cf *hxlib.CommonFlags, o *hxlib.Out) {
 		}
 	}
 	// report: one failure per family (the first two minimised), same-process differences first
+	// then the programs with the most differing compilations (the most reproducible ones)
+	perProg := map[int]int{}
+	progOf := func(df diff) int { return specs[df.a.spec].Progs[results[df.a.spec][df.a.step].Prog].ID }
+	for _, df := range diffs {
+		perProg[progOf(df)]++
+	}
 	sort.SliceStable(diffs, func(i, j int) bool {
 		si := diffs[i].a.spec == diffs[i].b.spec
 		sj := diffs[j].a.spec == diffs[j].b.spec
-		return si && !sj
+		if si != sj {
+			return si
+		}
+		return perProg[progOf(diffs[i])] > perProg[progOf(diffs[j])]
 	})
 	perFam := map[string]int{}
 	reported := 0
@@ -1191,7 +1342,7 @@ func runPState(cf *hxlib.CommonFlags, o *hxlib.Out) {
 			cmp = (*pStepRes).same
 		}
 		pr.reportPFailure(o, cf.Seed, cf.Tier, specs[df.a.spec], df.a.step, results[df.a.spec][df.a.step],
-			specs[df.b.spec], df.b.step, results[df.b.spec][df.b.step], cmp, reported <= 2)
+			specs[df.b.spec], df.b.step, results[df.b.spec][df.b.step], cmp, map[int]int{1: 40, 2: 12}[reported])
 	}
 	// model ops: the one-compiler history of every group with modelled folds
 	for si, sp := range specs {
@@ -1252,7 +1403,15 @@ func runPState(cf *hxlib.CommonFlags, o *hxlib.Out) {
 			o.Count("op_ahist_steps_" + kindLetter(stepKind(st)))
 		}
 	}
-	_ = dirs
+	// the concurrent history that ran under the race detector: every report is a failure
+	for si, sp := range specs {
+		if sp.Race && results[si] != nil {
+			o.Count("pstate_race_detector_processes")
+			reportRaces(o, pr.racebin, sp, dirs[si], false)
+		}
+	}
+	// model ops: the concurrent histories of the groups whose programs are modelled
+	emitCHistOps(o, cf.Seed, specs, results)
 	if len(progs) > 0 {
 		o.Sample(map[string]any{"pstate_program": progs[0].Name, "attributes": progs[0].Attr, "source": clipS(progs[0].Src, 500)})
 	}
@@ -1278,7 +1437,16 @@ func replayPState(pr *pRunner, o *hxlib.Out, file string) {
 		History   *pSpec `json:"history"`
 		Reference *pSpec `json:"reference"`
 	}
-	if json.Unmarshal(doc.Failure["replay_spec"], &rs) != nil || rs.History == nil || rs.Reference == nil {
+	if json.Unmarshal(doc.Failure["replay_spec"], &rs) != nil || rs.History == nil {
+		o.Meta["replay_error"] = "unreadable replay_spec in " + file
+		return
+	}
+	if rs.History.Race {
+		// a data-race report: the recorded history again under the race detector
+		replayRace(pr, o, rs.History)
+		return
+	}
+	if rs.Reference == nil {
 		o.Meta["replay_error"] = "unreadable replay_spec in " + file
 		return
 	}
@@ -1296,14 +1464,22 @@ func replayPState(pr *pRunner, o *hxlib.Out, file string) {
 		}
 		return a.sameCircuit(bb)
 	}
-	// the same history may need more than one run (scheduling decides which P finds a pooled object)
-	for try := 0; try < 3 && eq(hr[len(hr)-1], rr[len(rr)-1]); try++ {
+	// the same history may need more than one run (scheduling decides which P finds a pooled object, and how the
+	// steps of a concurrent element interleave)
+	reruns := 3
+	if hasConcurrent(rs.History) {
+		reruns = 8
+	}
+	for try := 0; try < reruns && differing(rs.History, hr, rr[len(rr)-1], eq) == nil; try++ {
 		if h2, d2 := pr.run(rs.History); h2 != nil {
 			hr, hdir = h2, d2
 		}
 		o.Count("pstate_replay_reruns")
 	}
 	a, bb := hr[len(hr)-1], rr[len(rr)-1]
+	if x := differing(rs.History, hr, bb, eq); x != nil {
+		a = x
+	}
 	equal := eq(a, bb)
 	o.Meta["replay"] = map[string]any{"history": describeHistory(rs.History), "reference": describeHistory(rs.Reference),
 		"after_the_history": a.String(), "reference_output": bb.String(), "equal": equal}
@@ -1320,7 +1496,7 @@ func replayPState(pr *pRunner, o *hxlib.Out, file string) {
 		"replay_spec": map[string]any{"history": rs.History, "reference": rs.Reference},
 		"replayed":    true,
 	}
-	ta, tb := readSSA(rdir, len(rr)-1), readSSA(hdir, len(hr)-1)
+	ta, tb := readSSA(rdir, len(rr)-1), readSSA(hdir, indexOfRes(hr, a))
 	if ta != tb {
 		d["ssa_diff"] = firstDiff(ta, tb)
 	}
